@@ -501,6 +501,8 @@ class Exec:
             if sp and t.startswith("{closure@"):
                 return Closure(sp.group(1), [])
             return FnItem(t)
+        if re.match(r"^Option::<.*>::None$", c):
+            return Adt("Option", "None", [])
         if c.startswith("{alloc"):
             return Opaque("static", what=c)
         m = re.match(r"^(.*)::promoted\[(\d+)\]$", c)
